@@ -672,6 +672,8 @@ func Handle(in []byte) any {
 		runRequests(&sc, out)
 	case "lifecycle":
 		runLifecycle(&sc, out)
+	case "killhash":
+		runKillHashing(&sc, out)
 	case "reader":
 		runReader(&sc, out)
 	default:
